@@ -21,6 +21,7 @@ FINDERS = [
     (r'textselection_by_offset|beginaligned_cursor', 'find_offset_accept'),
     (r'LimitIter', 'find_limit_slice'),
     (r'Handles', 'find_handles_setops'),
+    (r'strip_annotation_ids|strip_data_ids|IdMap<HandleType>::(new|default|with_resolve_temp_ids|set_resolve_temp_ids)', 'find_strip_ids'),
     (r'::reindex|::gaps', 'find_reindex_ids'),
     (r'SegmentationIter', 'find_segmentation'),
     (r'utf8byte|create_milestones', 'find_utf8'),
